@@ -140,7 +140,7 @@ def run(ctx):
                 ctx.disagree("series:chebyshev-break-on-last-term-only", f"distance {dist:.3e} > accuracy {accuracy:g}; broke at order {k}", desc)
     # ---- exact routes: unitarity for long times and large coefficients ---------------------------
     for case in range(36 if quick else 600):
-        route = rng.choice(["diagonal", "quadratic", "quadratic-sso", "quadratic-sso", "quadratic-gso", "diagcoulomb", "individual",
+        route = rng.choice(["diagonal", "quadratic", "quadratic-sso", "quadratic-sso", "quadratic-sb", "quadratic-gso", "diagcoulomb", "individual",
                             "individual-spinbroken", "individual-spinbroken"])
         norb = rng.choice([2, 3])
         made = make_case(ctx, rng, route, norb)
